@@ -293,10 +293,16 @@ def run_case(stream, seed, ctx, params):
             if n - delta < 1:
                 return None
             c.fill['us'] = c.fill['us'][:n - delta]
+        elif rng.random() < 0.3:
+            # too long through a repetition count that overshoots: `u kR` with k + 1 > number of elements (no surplus
+            # token is left for anything else to read)
+            c.fill['us'] = [c.fill['us'][0], '%d%s' % (n - 1 + delta, rng.choice('rR'))]
         else:
             c.fill['us'] = c.fill['us'] + [c.fill['us'][0]] * delta
         detail = '%+d' % (delta if fault == 'fill-long' else -delta)
-        if fault == 'fill-long' and delta == 1 and c.fill['us'][0] in d.trs:
+        if fault == 'fill-long' and len(c.fill['us']) == 2 and isinstance(c.fill['us'][1], str):
+            detail += ' by nR'
+        if fault == 'fill-long' and delta == 1 and c.fill['us'][0] in d.trs and 'nR' not in detail:
             detail = '+1=tr'      # the surplus entry is the number of a TR card of the deck (finding F17c)
         text = D.render_deck(d, D.Layout(rng))
     elif fault == 'imp-len':
